@@ -55,6 +55,7 @@ impl<C> Encode<C> for Val {
 impl Val {
     fn name(&self) -> String {
         match self {
+            Val::Arr(v) if v.len() > 32 => format!("big{}", v.len()),
             Val::Arr(v) => format!("{:?}", v),
             Val::FailEnc => "FailEnc".into(),
             Val::PartialFail => "PartialFail".into(),
@@ -63,18 +64,14 @@ impl Val {
     /// model: payload bytes (independent reference encoding of an array of small u8)
     fn payload(&self) -> Option<Vec<u8>> {
         match self {
-            Val::Arr(v) => {
-                assert!(v.len() < 24 && v.iter().all(|x| *x < 24));
-                let mut p = vec![0x80 | v.len() as u8];
-                p.extend_from_slice(v);
-                Some(p)
-            }
+            Val::Arr(v) => Some(array_payload(v)),
             _ => None,
         }
     }
 }
 
 struct SinkState {
+    coarse: bool,
     received: Vec<u8>,
     consecutive_pending: u32,
     errors: u32,
@@ -97,7 +94,7 @@ impl AsyncWrite for Sink {
         s.last_poll_pending = false;
         let n = buf.len();
         // options: accept n, accept n-1 .. 1 (free), Pending (1), transient error (1), accept 0 (1)
-        let mut costs: Vec<u8> = vec![0; n.max(1)];
+        let (sizes, mut costs) = size_menu(n, s.coarse);
         let accept_opts = costs.len();
         let can_pend = s.consecutive_pending < s.lim.p;
         let can_err = s.errors < s.lim.e;
@@ -113,7 +110,7 @@ impl AsyncWrite for Sink {
         }
         let c = s.ch.borrow_mut().choose("poll_write", &costs);
         if c < accept_opts {
-            let k = if n == 0 { 0 } else { n - c };
+            let k = sizes[c];
             s.received.extend_from_slice(&buf[..k]);
             s.consecutive_pending = 0;
             return Poll::Ready(Ok(k));
@@ -152,11 +149,13 @@ pub struct Scenario {
     pub max_len: Option<u32>,
     /// call sync() explicitly after every completed write and on the fresh writer
     pub idle_syncs: bool,
+    /// construct the writer with `with_buffer` and a recycled buffer (stale content, spare capacity)
+    pub dirty: bool,
 }
 
 impl Scenario {
     fn json(&self) -> serde_json::Value {
-        json!({"values": self.values.iter().map(|v| v.name()).collect::<Vec<_>>(), "max_len": self.max_len, "idle_syncs": self.idle_syncs})
+        json!({"values": self.values.iter().map(|v| v.name()).collect::<Vec<_>>(), "max_len": self.max_len, "idle_syncs": self.idle_syncs, "with_buffer": self.dirty})
     }
 }
 
@@ -213,6 +212,7 @@ fn drive<T>(
 
 pub fn run_once(sc: &Scenario, lim: Limits, ch: SharedChooser, obs_out: &mut Option<Obs>) -> Result<(), String> {
     let st = Rc::new(RefCell::new(SinkState {
+        coarse: sc.values.iter().any(|v| matches!(v, Val::Arr(a) if a.len() > 24)),
         received: Vec::new(),
         consecutive_pending: 0,
         errors: 0,
@@ -222,7 +222,7 @@ pub fn run_once(sc: &Scenario, lim: Limits, ch: SharedChooser, obs_out: &mut Opt
         lim,
         ch: ch.clone(),
     }));
-    let mut writer = AsyncWriter::new(Sink(st.clone()));
+    let mut writer = if sc.dirty { AsyncWriter::with_buffer(Sink(st.clone()), dirty_buffer()) } else { AsyncWriter::new(Sink(st.clone())) };
     let max_len = match sc.max_len {
         Some(m) => {
             writer.set_max_len(m);
@@ -395,14 +395,29 @@ pub fn scenarios(tier: Tier) -> (Vec<Scenario>, Limits, String) {
                 if idle && ml.is_some() {
                     continue;
                 }
-                out.push(Scenario { values: s.clone(), max_len: ml, idle_syncs: idle });
+                out.push(Scenario { values: s.clone(), max_len: ml, idle_syncs: idle, dirty: false });
             }
+        }
+        out.push(Scenario { values: s.clone(), max_len: None, idle_syncs: true, dirty: true });
+    }
+    for big in large_frames() {
+        let v = Val::Arr(big.value.clone().unwrap());
+        let l = big.payload.len() as u32;
+        let huge = l > 1000;
+        if huge && tier == Tier::Quick && l != 65536 {
+            continue;
+        }
+        let seqs = if huge || tier == Tier::Quick { vec![vec![v.clone()]] } else { vec![vec![v.clone()], vec![Val::Arr(vec![5]), v.clone()], vec![v.clone(), Val::FailEnc]] };
+        for seq in seqs {
+            out.push(Scenario { values: seq.clone(), max_len: None, idle_syncs: false, dirty: false });
+            out.push(Scenario { values: seq.clone(), max_len: Some(l), idle_syncs: true, dirty: true });
+            out.push(Scenario { values: seq.clone(), max_len: Some(l - 1), idle_syncs: false, dirty: false });
         }
     }
     // largest scenarios first so that the dynamic sharding balances
     out.sort_by_key(|s: &Scenario| std::cmp::Reverse(s.values.iter().map(|v| v.payload().map(|p| p.len() + 4).unwrap_or(0)).sum::<usize>()));
     let bound = format!(
-        "0..={} values over {} value kinds (3 encodable arrays of 5..7 frame bytes, 2 failing encoders), max_len in {{default, 2, 3}}; sink: all accept sizes (free), <= {} consecutive Pending, <= {} transient errors, <= {} zero-length accepts; caller: <= {} dropped write/sync futures; total deviation budget {}",
+        "0..={} values over {} value kinds (3 encodable arrays of 5..7 frame bytes, 2 failing encoders), max_len in {{default, 2, 3}}, plus values with payloads of 255..65537 bytes (writes of more than 32 bytes accepted whole or, as one deviation each, 1 / half / all-but-one bytes); AsyncWriter::new and ::with_buffer(recycled buffer); sink: all accept sizes (free), <= {} consecutive Pending, <= {} transient errors, <= {} zero-length accepts; caller: <= {} dropped write/sync futures; total deviation budget {}",
         max_vals, vals.len(), lim.p, lim.e, lim.z, lim.d, lim.b
     );
     (out, lim, bound)
@@ -480,10 +495,14 @@ pub fn replay_case(case: &serde_json::Value) -> Result<(), String> {
         .map(|x| match x.as_str().unwrap() {
             "FailEnc" => Val::FailEnc,
             "PartialFail" => Val::PartialFail,
+            s if s.starts_with("big") => {
+                let n: usize = s[3..].parse().unwrap();
+                Val::Arr(large_frames().into_iter().find(|f| f.value.as_ref().unwrap().len() == n).unwrap().value.unwrap())
+            }
             s => Val::Arr(serde_json::from_str::<Vec<u8>>(s).unwrap()),
         })
         .collect();
-    let scen = Scenario { values, max_len: sc["max_len"].as_u64().map(|x| x as u32), idle_syncs: sc["idle_syncs"].as_bool().unwrap_or(false) };
+    let scen = Scenario { values, max_len: sc["max_len"].as_u64().map(|x| x as u32), idle_syncs: sc["idle_syncs"].as_bool().unwrap_or(false), dirty: sc["with_buffer"].as_bool().unwrap_or(false) };
     let l = &case["limits"];
     let g = |k: &str| l[k].as_u64().unwrap() as u32;
     let lim = Limits { p: g("p"), e: g("e"), d: g("d"), z: g("z"), b: g("b") };
